@@ -11,6 +11,7 @@ NaN/Infinity refused."""
 import json
 import math
 import os
+import re
 import struct
 import subprocess
 from concurrent.futures import ThreadPoolExecutor
@@ -18,6 +19,7 @@ from fractions import Fraction
 
 import common
 from common import Broken, Violation
+import tr_numtojson
 
 MANIFEST = {
     "text": "Coq theorems about an executable model of NumberToJson.convert2Es6Format and the sort_keys encoder of "
@@ -698,6 +700,29 @@ def shrink(v, kind):
     return v
 
 
+PINNED_INTS = [-7, -1, 0, 1, 2, 3, 21]      # integer literals of the pinned convert2Es6Format
+
+
+def boundary_numbers(ints):
+    """doubles whose decimal exponent sits at / next to the given thresholds (and their negatives): where a changed
+    comparison constant of convert2Es6Format first shows"""
+    xs = []
+    exps = set()
+    for t in ints:
+        for d in (-2, -1, 0, 1, 2):
+            exps.update({t + d, -t + d})
+    for e in sorted(exps):
+        for m in ("1", "1.5", "9.999999999999999", "1.2345678901234567", "2.5"):
+            for sign in ("", "-"):
+                try:
+                    x = float("%s%se%d" % (sign, m, e))
+                except (ValueError, OverflowError):
+                    continue
+                if x not in (0.0, math.inf, -math.inf):
+                    xs.append(x)
+    return xs
+
+
 def check(run):
     run.coverage["rule"] = (
         "numbers: doubles by bit pattern with the exponent field uniform over 0..2046 (subnormals, mantissa edge patterns), "
@@ -708,9 +733,23 @@ def check(run):
         "NaN/Infinity and lone surrogates. Each value goes through canonicalize(v, utf8=False) and the Coq model; numbers "
         "also through py_repr/es6_tostring from independently obtained shortest digits. Non-trivial = the result is a text "
         "(not an exception) and the value is not a bare null/true/false.")
+    src_ints = None
     with common.Lock():
+        # the source text: NumberToJson.py as a program of Model/PyMini.v, Canonicalize.py as facts
+        for name, fn, out in (("tr_numtojson", tr_numtojson.translate, "NumToJson.v"),
+                              ("tr_numtojson.translate_canon", tr_numtojson.translate_canon, "CanonFacts.v")):
+            try:
+                text, meta = fn(common.REPO, common.PY)
+                common.write_if_changed(os.path.join(common.COQ, "Gen", out), text)
+                if out == "NumToJson.v":
+                    src_ints = sorted({int(m) for m in re.findall(r"\(IL \(?(-?\d+)\)?\)", text)})
+            except Exception as e:  # noqa: BLE001 -- fail closed
+                run.broken.append(Broken("translator", name, {"error": "%s: %s" % (type(e).__name__, str(e)[-800:])}))
         res = common.build_props("Props/C16.v")
-        run.add_build(res, "make -C coq Props/C16.vo (coqc 8.16.1, full .vo) + Print Assumptions per theorem")
+        run.add_build(res, "make -C coq Props/C16.vo Props/C16Src.vo (coqc 8.16.1, full .vo) + Print Assumptions per theorem")
+        res2 = common.build_props("Props/C16Src.v")
+        run.add_build(res2, "make -C coq Props/C16.vo Props/C16Src.vo (coqc 8.16.1, full .vo) + Print Assumptions per theorem")
+    run.coverage["source_text"] = {"numtojson_int_literals": src_ints, "pinned_int_literals": PINNED_INTS}
 
     rng = run.rng
     numbers = gen_numbers(rng, run.tier)
@@ -817,7 +856,9 @@ def check(run):
     if run.broken and not vio:
         import random
         srng = random.Random(run.seed + 1)
-        more = gen_numbers(srng, "thorough")[:250000]
+        # first where the source text differs from the pinned one: the comparison constants that changed
+        changed = sorted(set(src_ints or []) ^ set(PINNED_INTS)) or PINNED_INTS
+        more = boundary_numbers(changed + PINNED_INTS) + gen_numbers(srng, "thorough")[:250000]
         mobs = run_cases(more)
         vio += violations_for(more, mobs)
         if not vio:
